@@ -309,6 +309,10 @@ uint64_t rsv_clock_hr(void)
 	hr_calls += 13;
 	return steps * 64 + hr_calls;
 }
+unsigned rsv_batch_size(unsigned dflt)
+{
+	return cfg.mode != RSV_MODE_OFF && cfg.batch ? cfg.batch : dflt;
+}
 int rsv_threads_virtual(void)
 {
 	return cfg.mode != RSV_MODE_OFF && me >= 0;
